@@ -90,6 +90,8 @@ for _o in ('C15.STATUS', 'C15.EXIT-IFF', 'C15.UNDERSCORE', 'C15.ONLY-EXIT', 'C15
 for _o in ('C17.RS-SIGNAL', 'C17.RS-TABLE', 'C17.RS-PROCESS-IFF', 'C17.RS-PID'):
     REPLAYERS[_o] = _R.replay_c17_rs
 REPLAYERS['C16.KIND'] = _R.replay_c16_kind
+for _o in ('C05.V-UNREG-IFF-LIVE', 'C05.V-REMOVE-ONLY-IT', 'C05.V-UNREG-SIGNAL', 'C05.V-REG-APPEND', 'C05.V-ID-FRESH', 'C05.V-INV', 'C02.V-ID-MONO', 'C05.V-PUBLISH-IFF-CHANGED'):
+    REPLAYERS[_o] = _R.replay_c05_history
 HOOK_COMMITS = []
 _HIDE = ()
 NOT_APPLICABLE = {
